@@ -158,6 +158,19 @@ Proof.
 Qed.
 Print Assumptions C10_iso_cofactors.
 
+(* affine == isoparametric on straight simplices: the basis expansion of MappingIsoparametric.Fmap / _J with the lbasis
+   of ElementLineP1 / ElementTriP1 / ElementTetP1 (regenerated) is the affine map F and the constant Jacobian A at EVERY
+   reference point, and the P1 basis is nodal at the reference vertices of refdom.py *)
+Theorem C10_affine_iso_agree : forall R ops, is_ring R ops -> forall (P : mat R) (X : vec R),
+  (veq 1 (isoF 2 p1_phi_1 P X) (mapF 1 (aff_A_1 P) (aff_b_1 P) X) /\ meq 1 (isoJ 2 p1_dphi_1 P X) (aff_A_1 P) /\
+   veq 2 (isoF 3 p1_phi_2 P X) (mapF 2 (aff_A_2 P) (aff_b_2 P) X) /\ meq 2 (isoJ 3 p1_dphi_2 P X) (aff_A_2 P) /\
+   veq 3 (isoF 4 p1_phi_3 P X) (mapF 3 (aff_A_3 P) (aff_b_3 P) X) /\ meq 3 (isoJ 4 p1_dphi_3 P X) (aff_A_3 P)) /\
+  (forall k k', (k < 2 -> k' < 2 -> p1_phi_1 (ref_p_line k) k' = delta (R:=R) k k') /\
+                (k < 3 -> k' < 3 -> p1_phi_2 (ref_p_tri k) k' = delta (R:=R) k k') /\
+                (k < 4 -> k' < 4 -> p1_phi_3 (ref_p_tet k) k' = delta (R:=R) k k')).
+Proof. intros R ops H P X. split; [apply p1_iso_is_affine; assumption | intros k k'; apply p1_nodal; assumption]. Qed.
+Print Assumptions C10_affine_iso_agree.
+
 (* non-vacuity: a concrete non-degenerate (negatively oriented) rational tetrahedron *)
 Example C10_instance_Qc :
   let P : mat Qc := mkmat [[Q2Qc 0; Q2Qc 0; Q2Qc 0]; [Q2Qc 0; Q2Qc 2; Q2Qc 0]; [Q2Qc 3; Q2Qc 1; Q2Qc 0]; [Q2Qc 1; Q2Qc 1; Q2Qc 5]] in
